@@ -3,18 +3,21 @@
 (* PREDICT for C04: every string up to MaxLen over an alphabet of          *)
 (* character classes that separates the cases of the lexer and of ts-rs's  *)
 (* quoting (letter, digit, _, $, space, -, ", ', \, *, /, non-ASCII        *)
-(* letter), the empty string included.  Model verdict per string: the text *)
+(* letter, line break), the empty string included.  Model verdict per string: the text *)
 (* ts-rs would write around it lexes to exactly one key token.             *)
 (***************************************************************************)
 EXTENDS Lexical, Json
 CONSTANT MaxLen
 Alphabet == { Ch("a", "letter"), Ch("1", "digit"), Ch("_", "letter"), Ch("$", "letter"), Ch(" ", "space"), Ch("-", "other"),
-              Ch("\"", "punct"), Ch("'", "punct"), Ch("\\", "punct"), Ch("*", "punct"), Ch("/", "punct"), Ch("é", "letter") }
+              Ch("\"", "punct"), Ch("'", "punct"), Ch("\\", "punct"), Ch("*", "punct"), Ch("/", "punct"), Ch("é", "letter"),
+              Ch("\n", "nl") }
 VARIABLE s
 Init == s = <<>>
 Next == Len(s) < MaxLen /\ \E c \in Alphabet : s' = Append(s, c)
 Spec == Init /\ [][Next]_s
 FieldKeyOK == OneKeyToken(FieldKey(s))          \* a property name produced by rename / rename_all
 QuotedOK == OneKeyToken(Quoted(s))              \* a variant name, tag or content literal
+\* model verdict on the transcription of the (repaired) quoting: whatever the string, one key token
+Model_C04 == FieldKeyOK /\ QuotedOK
 EmitCase == PrintT(<<"CASE", ToJson([s |-> [k \in DOMAIN s |-> s[k].c], field_ok |-> FieldKeyOK, quoted_ok |-> QuotedOK])>>)
 =============================================================================
